@@ -4,6 +4,8 @@ Any exit != 0 is a false alarm (or an analysis failure) of that check."""
 import concurrent.futures as cf, json, os, pathlib, shutil, subprocess, sys, tempfile
 VERIF = pathlib.Path(__file__).resolve().parent.parent
 props = [c["property_id"] for c in json.loads((VERIF / "MANIFEST.json").read_text())["checks"]]
+if os.environ.get("PYXAB_BENIGN_PROPS"):        # restrict to some checks (after a change that only touches their rules)
+    props = [p for p in props if p in os.environ["PYXAB_BENIGN_PROPS"].split(",")]
 ids = sys.argv[1:] or sorted(p.name for p in (VERIF / "benign").iterdir() if (p / "patch.diff").exists())
 
 def one(bid):
